@@ -26,7 +26,8 @@ package macat
 //@   before call:Flush#1 assert true
 //@
 //@ func (*Duration).UnmarshalText
-//@   before return#1 assert true
+//@   ensures atoi_ok(str(old(b))) ==> isnil(result) && deref(d) == atoi_val(str(old(b))) * 1000000000
+//@   ensures !isnil(result) ==> deref(d) == old(deref(d)) && !atoi_ok(str(old(b)))
 //@
 //@ func (*App).sendLoop
 //@   at call:SendMsg#1 set nsent = nsent + 1
